@@ -82,7 +82,7 @@ func c02Scenario(s shape, i int, after bool, extra int, r *vx.Rand) {
 	} else {
 		rec.Count("c02:crash-before")
 	}
-	recoverAndAudit(w, s.keys, r, r.Intn(6))
+	recoverAndAudit(w, s.keys, r, r.Intn(6), sr.a)
 }
 
 func runC02() {
